@@ -36,6 +36,11 @@ def main():
     demos = [f for f in glob.glob(os.path.join(out, "*_test.go"))]
     meta = {"name": name, "source_dir": out, "checks_run": {}, "confirmed": {}}
     wt = "/tmp/seed/verify-" + name
+    os.makedirs("/tmp/seed", exist_ok=True)
+    marker = f"/tmp/seed/confirmed-{name}.json"
+    if os.environ.get("SKIP_CONFIRM") and os.path.exists(marker):
+        meta = json.load(open(marker))
+        return run_checks(meta, name, checks, patch, demos, out)
     sh(f"git -C /repo worktree remove --force {wt}")
     rc, o = sh(f"git -C /repo worktree add -q --detach {wt} HEAD")
     if rc != 0:
@@ -92,6 +97,12 @@ def main():
     if not ok:
         json.dump(meta, open(f"/tmp/seed/rejected-{name}.json", "w"), indent=1)
         return 1
+    json.dump(meta, open(marker, "w"), indent=1)
+    if os.environ.get("CONFIRM_ONLY"):
+        return 0
+    return run_checks(meta, name, checks, patch, demos, out)
+
+def run_checks(meta, name, checks, patch, demos, out):
     # run the checks on /repo itself
     rc, o = sh("git -C /repo status --porcelain")
     if o.strip():
